@@ -271,6 +271,33 @@ class SLock(object):
         return "<SLock %s owner=%s>" % (self.label or hex(id(self)), self.owner)
 
 
+class SRLock(SLock):
+    """reentrant variant (threading.RLock): the owning task may take it again"""
+
+    def __init__(self):
+        super(SRLock, self).__init__()
+        self.depth = 0
+
+    def acquire(self, blocking=True, timeout=-1):
+        s = SCHED
+        me = s.me() if s else None
+        who = me.name if me is not None else "external"
+        if self.owner == who and self.depth > 0:
+            self.depth += 1
+            return True
+        ok = super(SRLock, self).acquire(blocking, timeout)
+        if ok:
+            self.depth = 1
+        return ok
+
+    def release(self):
+        if self.depth > 1:
+            self.depth -= 1
+            return
+        self.depth = 0
+        super(SRLock, self).release()
+
+
 class SQueue(object):
     def __init__(self, maxsize=0):
         self.d = collections.deque()
@@ -319,6 +346,7 @@ class QueueShim(object):
 
 class ThreadingShim(object):
     Lock = SLock
+    RLock = SRLock
 
     def __getattr__(self, k):
         return getattr(threading, k)
